@@ -78,7 +78,7 @@ fn lib_roundtrip(basis: &[u8], source: &[u8], bs: usize, legal: bool) -> Result<
 }
 
 fn c16_oracle(basis: &[u8], source: &[u8], bs: usize, obs: &Obs, edit: Option<&Value>, stats: &Stats) -> Result<(), Fail> {
-    let (ref_lit, ref_copies) = greedy_literal(basis, source, bs, bs <= 8);
+    let (ref_lit, ref_copies) = greedy_literal(basis, source, bs, bs <= 8 && source.len() <= 64 && basis.len() <= 64);
     if ref_copies > 0 {
         stats.nontrivial.fetch_add(1, Ordering::Relaxed);
     }
@@ -152,6 +152,10 @@ fn eval_case(which: Which, basis: &[u8], source: &[u8], bs: usize, legal: bool, 
 fn materialise(case: &Value, seed: u64) -> (Vec<u8>, Vec<u8>, usize, bool, Option<Value>) {
     if case["level"] == "byte" {
         (unhex(case["basis"].as_str().unwrap_or("")), unhex(case["source"].as_str().unwrap_or("")), case["bs"].as_u64().unwrap_or(1) as usize, false, None)
+    } else if case["level"] == "odd" {
+        let bs = case["bs"].as_u64().unwrap_or(1) as usize;
+        let (basis, source) = odd_case(case["len"].as_u64().unwrap_or(0) as usize, case["content"].as_str().unwrap_or("rand"), case["edit"].as_str().unwrap_or("identity"), seed);
+        (basis, source, bs, false, None)
     } else {
         let b = case["B"].as_u64().unwrap_or(512) as usize;
         let spec = case["basis"].as_str().unwrap_or("");
@@ -159,6 +163,31 @@ fn materialise(case: &Value, seed: u64) -> (Vec<u8>, Vec<u8>, usize, bool, Optio
         let source = apply_edit(&basis, spec, &case["edit"], b, seed);
         (basis, source, b, true, Some(case["edit"].clone()))
     }
+}
+
+/// Library-level "every positive block size": large bases (around the 64 KiB switch to the
+/// parallel signature path) with block sizes that are not legal CLI sizes.
+fn odd_case(len: usize, content: &str, edit: &str, seed: u64) -> (Vec<u8>, Vec<u8>) {
+    let basis: Vec<u8> = match content {
+        "rep" => (0..len).map(|i| (i % 251) as u8).collect(),
+        _ => junk(seed, 77, len),
+    };
+    let source = match edit {
+        "insert_mid" => {
+            let mut s = basis[..len / 2].to_vec();
+            s.extend_from_slice(&junk(seed, 78, 13));
+            s.extend_from_slice(&basis[len / 2..]);
+            s
+        }
+        "prefix1" => {
+            let mut s = vec![0x42u8];
+            s.extend_from_slice(&basis);
+            s
+        }
+        "drop_head" => basis[len.min(777)..].to_vec(),
+        _ => basis.clone(),
+    };
+    (basis, source)
 }
 
 fn run_lib(which: Which, ctx: &Ctx, stats: &Stats, samples: &mut Vec<Value>, bounds: &mut serde_json::Map<String, Value>) -> Vec<Violation> {
@@ -244,6 +273,30 @@ fn run_lib(which: Which, ctx: &Ctx, stats: &Stats, samples: &mut Vec<Value>, bou
     violations.extend(v);
     bounds.insert("chunk_level".into(), json!({"block_sizes":sizes,"max_chunks":maxc,"basis_specs":specs.len(),"edits":menu.len(),"chunk_kinds":CHUNK_KINDS,"extra_large_bases":extra.len()}));
     samples.push(json!({"level":"chunk","B":8192,"basis":"R1,W,t","edit":{"op":"insert","k":"7","o":"B+1"}}));
+
+    // odd (non-CLI) block sizes on bases around and above the 64 KiB parallel-signature switch
+    let odd_bs: Vec<usize> = if thorough { vec![1, 3, 7, 100, 1000, 1023, 1025, 4097, 30000, 65535, 65537, 100000] } else { vec![3, 1000, 4097, 65537, 100000] };
+    let odd_len: Vec<usize> = if thorough { vec![65535, 65536, 65537, 70001, 131072, 200000] } else { vec![65536, 65537, 200000] };
+    let mut ojobs = Vec::new();
+    for &bs in &odd_bs {
+        for &l in &odd_len {
+            for c in ["rand", "rep"] {
+                for e in ["identity", "insert_mid", "prefix1", "drop_head"] {
+                    ojobs.push((bs, l, c, e));
+                }
+            }
+        }
+    }
+    let v: Vec<Violation> = ojobs
+        .par_iter()
+        .filter_map(|&(bs, l, c, e)| {
+            let (basis, source) = odd_case(l, c, e, seed);
+            eval_case(which, &basis, &source, bs, false, None, stats).map(|(k, m)| Violation::new(k, m, json!({"level":"odd","bs":bs,"len":l,"content":c,"edit":e})))
+        })
+        .collect();
+    violations.extend(v);
+    bounds.insert("odd_block_sizes".into(), json!({"block_sizes":odd_bs,"basis_lengths":odd_len,"contents":["rand","rep"],"edits":4}));
+    samples.push(json!({"level":"odd","bs":1000,"len":65537,"content":"rand","edit":"insert_mid"}));
     violations
 }
 
